@@ -472,6 +472,9 @@ def judge(col, tally, dec, s, meta, kind, posc, is_base, base_ok=True):
     """Runs one decoder on one string and applies rules (a)(b)(c). Returns True when the library accepted."""
     case = {'decoder': dec, 's': s, 'meta': meta, 'kind': kind, 'is_base': is_base}
     refs = ref_readings(dec, s, meta)
+    if is_base and not refs:
+        col.note_inconclusive('harness error: generated base string %r (%s) is rejected by the reference for %s' % (s, meta['cls'], dec))
+        return False
     st, obs = lib_call(dec, s, meta)
     col.probe(dec)
     col.probe('ref-valid' if refs else 'ref-invalid')
@@ -549,7 +552,8 @@ def _hash_feature(rnd, n, i):
 def _secret_feature(rnd, i):
     f = i % 8
     if f == 0:
-        return b'\0' * rnd.randint(1, 3) + rnd.randbytes(29), 'lead0'
+        z = rnd.randint(1, 3)
+        return b'\0' * z + bytes([rnd.randint(1, 255)]) + rnd.randbytes(31 - z), 'lead0'
     if f == 1:
         return rnd.randbytes(31) + b'\x01', 'ends01'
     if f == 2:
